@@ -65,8 +65,8 @@ Definition any_mod (l : list (option Z * bool)) : bool := existsb (fun p => is_s
 Definition wake_due {S} (B : body S) (s : S) (t : Z) : bool :=
   match b_next B s with Some w => w <=? t | None => false end.
 
-(* the broadcast argument, if the map has one: current value and modified flag *)
-Definition bcarg := option (option Z * bool).
+(* the broadcast arguments (bound whole to every instance): current value and modified flag each *)
+Definition bcarg := list (option Z * bool).
 
 Definition key_step {S} (B : body S) (t : Z) (bc : bcarg) (key : Z) (ks : kstate S) (ops : list kop)
   : kstate S * kev :=
@@ -80,7 +80,7 @@ Definition key_step {S} (B : body S) (t : Z) (bc : bcarg) (key : Z) (ks : kstate
   | inst, true =>
       let first := negb (is_some inst) in
       let s := match inst with Some s => s | None => b_init B end in
-      let args := nv ++ match bc with Some a => [a] | None => [] end in
+      let args := nv ++ bc in
       let trig := first || any_mod args || wake_due B s t in
       if trig then
         let '(s', o) := b_step B s (mkBI t key first args) in
@@ -111,29 +111,25 @@ Fixpoint kget {S} (key : Z) (st : mstate S) : option (kstate S) :=
   match st with [] => None | (k, ks) :: r => if k =? key then Some ks else kget key r end.
 
 (* a history: per cycle the time, the broadcast update and the dictionary operations *)
-Record cyc := mkCyc { c_t : Z; c_bc : option Z; c_ops : list (nat * Z * Z * Z) }.
+Record cyc := mkCyc { c_t : Z; c_bc : bcarg; c_ops : list (nat * Z * Z * Z) }.
 
 (* [r_primed]: some dictionary has ticked, so the key set is known and the output dictionary is valid;
    the log records per cycle the time, whether the output became valid in it, and the key events *)
-Record run_state (S : Type) := mkR { r_st : mstate S; r_bc : option Z; r_primed : bool; r_log : list (Z * bool * list (Z * kev)) }.
-Arguments mkR {S}. Arguments r_st {S}. Arguments r_bc {S}. Arguments r_primed {S}. Arguments r_log {S}.
+Record run_state (S : Type) := mkR { r_st : mstate S; r_primed : bool; r_log : list (Z * bool * list (Z * kev)) }.
+Arguments mkR {S}. Arguments r_st {S}. Arguments r_primed {S}. Arguments r_log {S}.
 
 Definition has_set (ops : list (nat * Z * Z * Z)) : bool := existsb (fun o => snd (fst (fst o)) =? 1) ops.
 
-Definition bc_arg (use_bc : bool) (cur : option Z) (upd : option Z) : bcarg :=
-  if use_bc then Some (match upd with Some v => (Some v, true) | None => (cur, false) end) else None.
-
-Definition run_cycle {S} (B : Z -> body S) (use_bc : bool) (r : run_state S) (c : cyc) : run_state S :=
-  let res := cycle B (c_t c) (bc_arg use_bc (r_bc r) (c_bc c)) (c_ops c) (r_st r) in
+Definition run_cycle {S} (B : Z -> body S) (r : run_state S) (c : cyc) : run_state S :=
+  let res := cycle B (c_t c) (c_bc c) (c_ops c) (r_st r) in
   let prime := negb (r_primed r) && has_set (c_ops c) in
-  mkR (next_state res) (match c_bc c with Some v => Some v | None => r_bc r end) (r_primed r || prime)
-      ((c_t c, prime, events res) :: r_log r).
+  mkR (next_state res) (r_primed r || prime) ((c_t c, prime, events res) :: r_log r).
 
-Definition run {S} (B : Z -> body S) (use_bc : bool) (st0 : run_state S) (h : list cyc) : run_state S :=
-  fold_left (run_cycle B use_bc) h st0.
+Definition run {S} (B : Z -> body S) (st0 : run_state S) (h : list cyc) : run_state S :=
+  fold_left (run_cycle B) h st0.
 
 Definition start_state {S} (ndict : nat) (keys : list Z) : run_state S :=
-  mkR (map (fun k => (k, kinit ndict)) keys) None false [].
+  mkR (map (fun k => (k, kinit ndict)) keys) false [].
 
 (* the events of one key, oldest first *)
 Definition key_events {S} (key : Z) (r : run_state S) : list (Z * kev) :=
@@ -149,7 +145,10 @@ Definition next_wake {S} (B : Z -> body S) (st : mstate S) : option Z :=
 (* ================================================================== the vocabulary *)
 Inductive stage := SAdd (c : Z) | SAcc | STimer (d : Z) (tagged : bool) | SBoom (v : Z).
 
-Record vspec := mkV { v_usekey : bool; v_stages : list stage }.
+(* [v_nested]: the body is itself a map_ - over the WHOLE second dictionary (passed through), with the element as the
+   inner broadcast argument, inner function y + x - followed by the sum of the inner map's elements.  The two
+   extra arguments are the sum and the number of the second dictionary's entries (None until it has ticked). *)
+Record vspec := mkV { v_usekey : bool; v_nested : bool; v_stages : list stage }.
 
 (* a node's output: held value (if it ever ticked) *)
 Record sstate := mkSS { ss_out : option Z; ss_acc : Z; ss_last : Z; ss_pend : list Z }.
@@ -194,9 +193,18 @@ Fixpoint chain_step (sgs : list stage) (t : Z) (sts : list sstate) (inp : option
   end.
 
 (* front end: x0 = arg 0; KeyMix(key, x0) when the key is consumed; Add2(., arg 1) when there are two arguments *)
-Record vstate := mkVS { vs_km : option Z; vs_add : option Z; vs_sts : list sstate }.
+(* [vs_skip]: the child graph's evaluation cursor is parked on the node that threw (graph.cpp evaluate_impl,
+   DESIGN.md 8.1 / property C15): the child's next evaluation resumes there and evaluates none of the
+   nodes before it - with the vocabulary's chains (the throwing node is last) that evaluation does nothing.
+   That was the defect of DESIGN.md 8.1; it is repaired in /repo (commit 8043915: resuming = !evaluation_failed && ...),
+   so [lost_tick_after_error] is false.  The switch is kept so that the defective behaviour remains expressible
+   (mutant m14 reverts the repair and must be caught). *)
+Record vstate := mkVS { vs_km : option Z; vs_add : option Z; vs_sts : list sstate; vs_skip : bool }.
+
+Definition lost_tick_after_error : bool := false.
 
 Definition vstep (sp : vspec) (s : vstate) (bi : binput) : vstate * bout :=
+  if vs_skip s then (mkVS (vs_km s) (vs_add s) (vs_sts s) false, BNone) else
   let a0 := nth 0 (bi_args bi) (None, false) in
   let '(km, x1) :=
     if v_usekey sp then
@@ -206,6 +214,14 @@ Definition vstep (sp : vspec) (s : vstate) (bi : binput) : vstate * bout :=
       | (None, _) => (vs_km s, (vs_km s, false))
       end
     else (vs_km s, a0) in
+  if v_nested sp then
+    (mkVS km (vs_add s) (vs_sts s) false,
+     match bi_args bi, x1 with
+     | [_; (Some sm, ms); (Some n, mn)], (Some x, mx) =>
+         if bi_first bi || ms || mn || (mx && (0 <? n)) then BOut (sm + n * x) else BNone
+     | _, _ => BNone
+     end)
+  else
   let '(ad, x2) :=
     match bi_args bi with
     | [_; a1] =>
@@ -216,14 +232,14 @@ Definition vstep (sp : vspec) (s : vstate) (bi : binput) : vstate * bout :=
     | _ => (vs_add s, x1)
     end in
   let '(sts, o, f) := chain_step (v_stages sp) (bi_now bi) (vs_sts s) x2 false in
-  (mkVS km ad sts,
+  (mkVS km ad sts (f && lost_tick_after_error),
    if f then BErr else match o with (Some v, true) => BOut v | _ => BNone end).
 
 Definition vnext (s : vstate) : option Z :=
   fold_right (fun st acc => min_opt (match ss_pend st with w :: _ => Some w | [] => None end) acc) None (vs_sts s).
 
 Definition vbody (sp : vspec) : body vstate :=
-  mkBody (mkVS None None (map (fun _ => ss0) (v_stages sp))) (vstep sp) vnext.
+  mkBody (mkVS None None (map (fun _ => ss0) (v_stages sp)) false) (vstep sp) vnext.
 
 Definition stages_of (code p1 p2 : Z) : list stage :=
   if code =? 0 then [SAdd p1]
@@ -232,6 +248,7 @@ Definition stages_of (code p1 p2 : Z) : list stage :=
   else if code =? 3 then [STimer p1 (z2b p2)]
   else if code =? 4 then [STimer p1 (z2b p2); SAcc]
   else if code =? 5 then [SAcc; SBoom p1]
+  else if code =? 6 then []
   else [SAdd 0].
 
 (* ================================================================== decoding and printing *)
@@ -265,42 +282,6 @@ Definition next_time (m : mcase) (t : Z) (wake : option Z) : option Z :=
   min_opt (match cands with [] => None | x :: r => Some (zmin_list x r) end)
           (match wake with Some w => if t <? w then Some w else None | None => None end).
 
-Definition cyc_at (m : mcase) (t : Z) : cyc :=
-  mkCyc t (match filter (fun p => fst p =? t) (m_bops m) with [] => None | p :: r => Some (snd (last r p)) end)
-        (map snd (filter (fun p => fst p =? t) (m_dops m))).
-
-Fixpoint drive {S} (B : Z -> body S) (m : mcase) (fuel : nat) (t : Z) (r : run_state S) : run_state S :=
-  match fuel with
-  | O => r
-  | S f =>
-      match next_time m t (next_wake B (r_st r)) with
-      | Some t' => if t' <? m_end m then drive B m f t' (run_cycle B (m_bcast m) r (cyc_at m t')) else r
-      | None => r
-      end
-  end.
-
-(* observation lines of one cycle; keys come in increasing order from the state *)
-Definition zcount {A} (f : A -> bool) (l : list A) : Z := Z.of_nat (length (filter f l)).
-
-Definition cycle_lines (usekey : bool) (t : Z) (prime : bool) (evs : list (Z * kev)) (valid_before : list (Z * Z))
-           (live_after : list Z) (all_after : list (Z * Z)) : list line :=
-  let starts := filter (fun p => ev_start (snd p)) evs in
-  let stops := filter (fun p => ev_stop (snd p)) evs in
-  let outs := flat_map (fun p => match ev_out (snd p) with Some v => [(fst p, v)] | None => [] end) evs in
-  let removed := map fst (filter (fun p => ev_removed (snd p)) evs) in
-  let added := filter (fun k => negb (existsb (fun q => fst q =? k) valid_before)) (map fst outs) in
-  let flat := flat_map (fun p : Z * Z => [fst p; snd p]) in
-  (match starts with [] => [] | _ => [[20; t; Z.of_nat (length starts)]] end) ++
-  (match stops with [] => [] | _ => [[21; t; Z.of_nat (length stops)]] end) ++
-  (if usekey then match starts with [] => [] | _ => [22 :: t :: map fst starts] end else []) ++
-  (if usekey then match stops with [] => [] | _ => [23 :: t :: map fst stops] end else []) ++
-  (match starts, stops, outs, prime with
-   | [], [], [], false => []
-   | _, _, _, _ => [[30; t]; 31 :: t :: removed; 32 :: t :: flat outs; [33; t]; 34 :: t :: flat all_after;
-                 35 :: t :: live_after; 36 :: t :: added]
-   end).
-
-(* replay the log (oldest first) keeping the valid-element dictionary and the live key set *)
 Fixpoint upd_assoc (k v : Z) (l : list (Z * Z)) : list (Z * Z) :=
   match l with
   | [] => [(k, v)]
@@ -308,7 +289,63 @@ Fixpoint upd_assoc (k v : Z) (l : list (Z * Z)) : list (Z * Z) :=
   end.
 Definition del_assoc (k : Z) (l : list (Z * Z)) : list (Z * Z) := filter (fun p => negb (fst p =? k)) l.
 
-Fixpoint print_log (usekey : bool) (log : list (Z * bool * list (Z * kev))) (valid : list (Z * Z)) (live : list Z) : list line :=
+(* the second dictionary as a whole (nested body), after the operations up to and including time t *)
+Definition d1_at (m : mcase) (t : Z) : list (Z * Z) :=
+  fold_left (fun d p => match p with (tm, (di, c, k, v)) =>
+                          if (tm <=? t) && Nat.eqb di 1 then (if c =? 1 then upd_assoc k v d else if c =? 2 then del_assoc k d else d) else d end)
+            (m_dops m) [].
+
+Definition bc_at (m : mcase) (t : Z) : bcarg :=
+  if m_body m =? 6 then
+    let d := d1_at m t in
+    let valid := existsb (fun p => match p with (tm, (di, c, _, _)) => (tm <=? t) && Nat.eqb di 1 && (c =? 1) end) (m_dops m) in
+    let md := existsb (fun p => match p with (tm, (di, _, _, _)) => (tm =? t) && Nat.eqb di 1 end) (m_dops m) in
+    if valid then [(Some (fold_left (fun a p => a + snd p) d 0), md); (Some (Z.of_nat (length d)), md)] else [(None, false); (None, false)]
+  else if m_bcast m then
+    [(match filter (fun p => fst p <=? t) (m_bops m) with [] => None | p :: r => Some (snd (last r p)) end,
+      existsb (fun p => fst p =? t) (m_bops m))]
+  else [].
+
+Definition cyc_at (m : mcase) (t : Z) : cyc :=
+  mkCyc t (bc_at m t)
+        (filter (fun o => Nat.ltb (fst (fst (fst o))) (Z.to_nat (m_ndict m))) (map snd (filter (fun p => fst p =? t) (m_dops m)))).
+
+Fixpoint drive {S} (B : Z -> body S) (m : mcase) (fuel : nat) (t : Z) (r : run_state S) : run_state S :=
+  match fuel with
+  | O => r
+  | S f =>
+      match next_time m t (next_wake B (r_st r)) with
+      | Some t' => if t' <? m_end m then drive B m f t' (run_cycle B r (cyc_at m t')) else r
+      | None => r
+      end
+  end.
+
+(* observation lines of one cycle; keys come in increasing order from the state *)
+Definition zcount {A} (f : A -> bool) (l : list A) : Z := Z.of_nat (length (filter f l)).
+
+Definition cycle_lines (usekey counts : bool) (t : Z) (prime : bool) (evs : list (Z * kev)) (valid_before : list (Z * Z))
+           (live_after : list Z) (all_after : list (Z * Z)) : list line :=
+  let starts := filter (fun p => ev_start (snd p)) evs in
+  let stops := filter (fun p => ev_stop (snd p)) evs in
+  let outs := flat_map (fun p => match ev_out (snd p) with Some v => [(fst p, v)] | None => [] end) evs in
+  let removed := map fst (filter (fun p => ev_removed (snd p)) evs) in
+  let added := filter (fun k => negb (existsb (fun q => fst q =? k) valid_before)) (map fst outs) in
+  let errs := map fst (filter (fun p => ev_err (snd p)) evs) in
+  let flat := flat_map (fun p : Z * Z => [fst p; snd p]) in
+  (if counts then match starts with [] => [] | _ => [[20; t; Z.of_nat (length starts)]] end else []) ++
+  (if counts then match stops with [] => [] | _ => [[21; t; Z.of_nat (length stops)]] end else []) ++
+  (if usekey then match starts with [] => [] | _ => [22 :: t :: map fst starts] end else []) ++
+  (if usekey then match stops with [] => [] | _ => [23 :: t :: map fst stops] end else []) ++
+  (match starts, stops, outs, prime with
+   | [], [], [], false => []
+   | _, _, _, _ => [[30; t]; 31 :: t :: removed; 32 :: t :: flat outs; [33; t]; 34 :: t :: flat all_after;
+                 35 :: t :: live_after; 36 :: t :: added]
+   end) ++
+  (match errs with [] => [] | _ => [37 :: t :: errs] end).
+
+(* replay the log (oldest first) keeping the valid-element dictionary and the live key set *)
+
+Fixpoint print_log (usekey counts : bool) (log : list (Z * bool * list (Z * kev))) (valid : list (Z * Z)) (live : list Z) : list line :=
   match log with
   | [] => []
   | (t, prime, evs) :: r =>
@@ -316,19 +353,20 @@ Fixpoint print_log (usekey : bool) (log : list (Z * bool * list (Z * kev))) (val
                                          else if ev_start (snd p) then zins (fst p) l else l) evs live in
       let valid1 := fold_left (fun l p => if ev_stop (snd p) then del_assoc (fst p) l
                                           else match ev_out (snd p) with Some v => upd_assoc (fst p) v l | None => l end) evs valid in
-      cycle_lines usekey t prime evs valid live1 valid1 ++ print_log usekey r valid1 live1
+      cycle_lines usekey counts t prime evs valid live1 valid1 ++ print_log usekey counts r valid1 live1
   end.
 
-Definition final_lines (usekey : bool) (live : list Z) : list line :=
-  [[24; Z.of_nat (length live)]] ++ (if usekey then [25 :: live] else []).
+Definition final_lines (usekey counts : bool) (live : list Z) : list line :=
+  (if counts then [[24; Z.of_nat (length live)]] else []) ++ (if usekey then [25 :: live] else []).
 
 Definition live_keys {S} (st : mstate S) : list Z := map fst (filter (fun p => is_some (k_inst (snd p))) st).
 
 Definition run_map (w : wire) : wire :=
   let m := decode w in
   let keys := zsort_dedup (map (fun p => snd (fst (snd p))) (m_dops m)) in
-  let sp := mkV (m_usekey m) (stages_of (m_body m) (m_p1 m) (m_p2 m)) in
+  let sp := mkV (m_usekey m) (m_body m =? 6) (stages_of (m_body m) (m_p1 m) (m_p2 m)) in
+  let counts := negb (m_body m =? 6) in
   let B := fun _ : Z => vbody sp in
   let r0 : run_state vstate := start_state (Z.to_nat (m_ndict m)) keys in
   let r := drive B m (Z.to_nat (m_end m - m_start m + 2)) (m_start m - 1) r0 in
-  print_log (m_usekey m) (rev (r_log r)) [] [] ++ final_lines (m_usekey m) (live_keys (r_st r)).
+  print_log (m_usekey m) counts (rev (r_log r)) [] [] ++ final_lines (m_usekey m) counts (live_keys (r_st r)).
